@@ -23,6 +23,7 @@ import (
 	"regexp"
 	"strings"
 	"sync"
+	"sync/atomic"
 	"syscall"
 	"time"
 
@@ -281,9 +282,33 @@ func mkMeta(rng *rand.Rand, class int, mb string) event.MessageMetadata {
 	}
 }
 
+// runStoreBehaviour runs one behaviour under a watchdog: a store call that has not returned after two minutes (each takes
+// microseconds to milliseconds) is reported as the event "hung" with the operation it was in, and the process ends - a call
+// that never returns is an observation like any other, and the contract has no action for it.
 func runStoreBehaviour(w *tr.Writer, b storeBehaviour, seed int64, scratch string) {
-	runStoreBehaviourHooked(w, b, seed, scratch, "", nil, nil)
+	var cur atomic.Int64
+	cur.Store(-1)
+	done := make(chan struct{})
+	go func() {
+		defer close(done)
+		runStoreBehaviourHooked(w, b, seed, scratch, "", func(i int) { cur.Store(int64(i)) }, nil)
+	}()
+	select {
+	case <-done:
+	case <-time.After(storeHangAfter):
+		i := int(cur.Load())
+		ev := tr.Ev{"a": "hung", "t": b.ID, "i": i}
+		if i >= 0 && i < len(b.Ops) {
+			ev["op"] = b.Ops[i].Op
+		}
+		w.Emit(ev)
+		w.Close()
+		fmt.Fprintf(os.Stderr, "store: behaviour %v: operation %d did not return within %v\n", b.ID, i, storeHangAfter)
+		os.Exit(0)
+	}
 }
+
+const storeHangAfter = 2 * time.Minute
 
 func mkMetaFixed(mb string) event.MessageMetadata {
 	return event.MessageMetadata{
